@@ -240,6 +240,7 @@ where
         }
     }
 
+    #[cfg(test)]
     pub(crate) fn choose_down_members(
         &self,
         wanted: usize,
@@ -247,6 +248,20 @@ where
         rng: impl Rng,
     ) {
         self.choose_members(wanted, output, rng, |member| !member.is_active());
+    }
+
+    pub(crate) fn choose_down_members_if<F>(
+        &self,
+        wanted: usize,
+        output: &mut Vec<Member<T>>,
+        rng: impl Rng,
+        picker: F,
+    ) where
+        F: Fn(&T) -> bool,
+    {
+        self.choose_members(wanted, output, rng, |member| {
+            !member.is_active() && picker(member.id())
+        });
     }
 
     pub(crate) fn choose_active_members<F>(
